@@ -92,6 +92,13 @@ func c17Pinned(name string) c17Case {
 			{"struct_fields_as_arguments": map[string]any{"by_name": "R.r"}},
 			{"struct_fields_as_arguments": map[string]any{"by_name": "R.r"}},
 		}
+	case "disjunction-index-out-of-range":
+		// panicked (option.Args[argumentIndex]) until /repo 423e7f3. Must pass.
+		f.Options = []map[string]any{
+			{"disjunction_as_options": map[string]any{"by_name": "S.a", "argument_index": 3}},
+			{"disjunction_as_options": map[string]any{"by_name": "S.n", "argument_index": -1}},
+			{"disjunction_as_options": map[string]any{"by_name": "S.tags", "argument_index": 1}},
+		}
 	case "compose-then-initialize":
 		// the composed builder starts from a by-value copy of the source builder's Constructor: both
 		// slices share one backing array with spare capacity (3 constants appended one by one: cap 4)
